@@ -334,6 +334,11 @@ func GenPosting(t *rapid.T, p *Profile, pools *Pools, o TxOpts) *m.Posting {
 			po.Assert = &m.Assert{Strict: rapid.Bool().Draw(t, "strict"), A: *aa, SpBefore: rapid.IntRange(1, 3).Draw(t, "spb"), SpAfter: rapid.IntRange(0, 2).Draw(t, "spa")}
 		}
 	}
+	if po.Amt == nil && rapid.IntRange(0, 5).Draw(t, "assertonly") == 0 && !p.off("posting.assert") && !p.off("posting.assert-no-amount") {
+		sym := rapid.SampledFrom(pools.Syms).Draw(t, "asym")
+		aa := GenAmount(t, p, sym, 3, 6)
+		po.Assert = &m.Assert{Strict: rapid.Bool().Draw(t, "astrict"), A: *aa, SpBefore: 2, SpAfter: rapid.IntRange(0, 2).Draw(t, "aspa")}
+	}
 	if rapid.IntRange(0, 3).Draw(t, "hascomment") == 0 && !p.off("posting.comment") {
 		po.Comment = GenComment(t, p, pools, true)
 		if po.Amt == nil && len(po.CSep) < 2 {
